@@ -375,6 +375,9 @@ def main(ctx):
     cells.append({"kind": "bfs", "cfg": {"lineup": lineups[2], "seed": None, "dims": 1, "model": "gauss2", "ensemble": 1}, "depth": 3, "auto": False, "new_runs": []})
     # more than ten parameters (column naming / ordering of the results table)
     cells.append({"kind": "bfs", "cfg": {"lineup": lineups[0], "seed": S, "dims": 12, "model": "gauss2", "ensemble": 1}, "depth": 2, "auto": True, "new_runs": []})
+    # larger-scope probe: four samplers, batch sizes up to 8, ensemble 4, longer series
+    cells.append({"kind": "bfs", "cfg": {"lineup": [{"cls": "Halton", "bs": 8}, {"cls": "BestBatch", "bs": 5}, {"cls": "ParticleSwarm", "bs": 4}, {"cls": "RSequence", "bs": 3}], "seed": S, "dims": 4, "model": "gauss2", "ensemble": 4, "T": 60},
+                  "depth": 3, "auto": True, "new_runs": ["n:seed"]})
     # RL scheduler
     cells.append({"kind": "bfs", "cfg": {"lineup": lineups[0], "seed": S, "dims": 2, "model": "gauss2", "ensemble": 1, "scheduler": {"eps": 0.3, "agent_seed": 1}}, "depth": 2, "auto": True, "new_runs": []})
     ctx.bounds = {"depth": depth, "ops": ["calibrate(1)", "calibrate(2)", "create_checkpoint", "restore", "new run in same folder (seed/line-up/batch size/ensemble variants)"],
